@@ -1,9 +1,12 @@
 SPECIFICATION Spec
 CONSTANTS
-  Mode = "grammar"
-  MutLen = 1
-  MaxTok = 3
-  Batch = 500
+  Mode = "resize"
+  MaxSegs = 3
+  MaxLen = 2
+  Slack = 2
+  N = 5
+  MaxRegs = 2
+  Batch = 50
   Stride = 1
   Offset = 0
 CHECK_DEADLOCK FALSE
